@@ -156,9 +156,9 @@ def gen_case(kind, profile, seed, tier='quick'):
     if kind == 'repro':
         sc = S.gen(seed, profile)
         rng = random.Random('repro/%s' % seed)
-        hs = [1, rng.randint(2, 4000), rng.randint(4001, 2 ** 31)]
-        if tier == 'thorough':
-            hs += [rng.randint(2, 2 ** 31), rng.randint(2, 2 ** 31)]
+        # a fixed pool of hash seeds (each worker keeps at most that many fresh interpreters alive)
+        pool = [7, 4242, 99991, 31337, 2 ** 31 - 1]
+        hs = [1] + rng.sample(pool, 2 if tier != 'thorough' else 4)
         return {'kind': 'repro', 'sc': sc, 'hashseeds': hs,
                 # another simulation, abandoned part-way, runs in the same process between the two runs
                 'interloper': {'seed': 'x/%s' % seed, 'until': rng.randint(1, 12), 'vuntil': rng.randint(1, 10)}}
@@ -394,8 +394,8 @@ def exec_repro(case, d):
         out['exc'] = ['helper', str(e)]
         return out
     for h in case['hashseeds']:
-        if h != 1:
-            close_helper(h)         # per-case hash seeds: do not let interpreters pile up
+        if h not in (1, 7, 4242, 99991, 31337, 2 ** 31 - 1):
+            close_helper(h)         # ad-hoc hash seeds (replay files of older runs): do not let interpreters pile up
     for h in case['hashseeds']:
         th = hs[h]
         out['nevents'] += th.get('nevents', 0)
